@@ -23,10 +23,14 @@ type params struct {
 	Mode     string // silent | late (pong after timeout+1ms) | justintime (pong after timeout-1ms, forever) | prompt
 	Traffic  bool
 	BPings   bool // the broker sends pings of its own
+	Burst    int  // the broker sends this many pings at once while the client's transport write is stalled (back pressure)
 	P        int
 }
 
 func (p params) name() string {
+	if p.Burst > 0 {
+		return fmt.Sprintf("i%v/t%v/k%d/%s/traffic%v/burst%d/P%d", p.Interval, p.Timeout, p.K, p.Mode, p.Traffic, p.Burst, p.P)
+	}
 	return fmt.Sprintf("i%v/t%v/k%d/%s/traffic%v/bping%v/P%d", p.Interval, p.Timeout, p.K, p.Mode, p.Traffic, p.BPings, p.P)
 }
 
@@ -57,6 +61,11 @@ func scenarios(tier string) []vlib.Scenario {
 	}
 	add(params{Interval: time.Second, Timeout: time.Second, K: 1, Mode: "silent", Traffic: true, P: 1})
 	add(params{Interval: time.Second, Timeout: time.Second, K: -1, Mode: "prompt", BPings: true, P: 1})
+	// bursts of broker pings against a stalled client write (the ping hand-over queue holds 8)
+	for _, n := range []int{3, 12, 40} {
+		add(params{Interval: time.Second, Timeout: time.Second, K: -1, Mode: "prompt", Burst: n})
+	}
+	add(params{Interval: time.Second, Timeout: time.Second, K: -1, Mode: "prompt", Burst: 12, P: 1})
 	if tier == "thorough" {
 		for _, c := range cfgs[:4] {
 			for k := 0; k <= 2; k++ {
@@ -171,6 +180,19 @@ func (w *world) main() {
 				}
 			}
 		})
+	}
+	if w.p.Burst > 0 {
+		vsched.Sleep(100*time.Millisecond, "h:before-burst")
+		if c := w.B.Live(); c != nil {
+			c.Link.HoldClientWrites = true
+			for i := 0; i < w.p.Burst; i++ {
+				id := uint32(2001 + 2*i)
+				w.bpingIDs = append(w.bpingIDs, id)
+				w.B.Send(c, &message.Ping{RequestID: message.RequestID(id)})
+			}
+			vsched.Quiesce()
+			c.Link.HoldClientWrites = false
+		}
 	}
 	vsched.Sleep(w.horizon, "h:horizon")
 	w.Phase = "closing"
